@@ -5,14 +5,21 @@
  * events, every allocation request / release inside a call is an event.  The driver never judges.
  *
  * usage: drv_fault trace scenario seed [maxk]
+ *        drv_fault trace @casefile seed [maxk [modes]]
+ *
+ * Second form ("focused cases"): every line `C name family p1 p2 ...` of the case file (written by the
+ * generator in checks/alloc.py) is one execution: objects are set up without faults, ONE target call is
+ * executed with the k-th allocation request *of that call* refused (mode 0 once, mode 1 for the rest of the
+ * call, mode 2 for the rest of the execution), then the objects are used again and destroyed without
+ * faults.  The fault-free run tells N = number of requests of the target call; k runs over 1..N.
  */
 #include "vcommon.h"
 #include "vfault.h"
 #include <pixman.h>
 #include <unistd.h>
 
-#define MAXSTEPS 1024
-#define MAXPIX 1024
+#define MAXSTEPS 2200
+#define MAXPIX 2304
 
 static int step;                       /* index of the traced call inside the execution */
 static int recording;                  /* fault-free run: remember normal results */
@@ -59,6 +66,8 @@ draw_begin_ (const char *name, const uint32_t *pix, int n)
     call_begin_ (name, "void");
 }
 
+static int draw_indep;      /* set before draw_end: the expected result does not depend on earlier (possibly failed) drawing calls */
+
 static void
 draw_end (const uint32_t *pix, int w, int h, const int *allowed, int nallowed)
 {
@@ -76,6 +85,9 @@ draw_end (const uint32_t *pix, int w, int h, const int *allowed, int nallowed)
     vt_int ("w", w);
     vt_int ("h", h);
     vt_ints ("allowed", allowed, 4 * nallowed);
+    if (draw_indep)
+	vt_int ("indep", 1);
+    draw_indep = 0;
     vt_w32s ("before", before_buf, n);
     vt_w32s ("after", pix, n);
     vt_w32s ("okafter", okafter[step < MAXSTEPS ? step : 0], n);
@@ -456,6 +468,851 @@ scenario_filter (vrng_t *rng)
     call_begin ("image_unref", "void"); if (dst) pixman_image_unref (dst); call_end ("void");
 }
 
+/* ======================================================================================================== */
+/* Focused cases: one target call per execution, every allocation request of that call refused in turn.     */
+/* The generator (checks/alloc.py) enumerates the parameter vectors; the families below only execute them.  */
+
+static int focus_k, focus_mode, focus_n, focus_t0;
+
+#define call_begin_s(site, name, kind) do { step = 2000 + (site); call_begin_ (name, kind); } while (0)
+#define draw_begin_s(site, name, pix, n) do { step = 2000 + (site); draw_begin_ (name, pix, n); } while (0)
+#define PARAM(i) ((i) < np ? p[i] : 0)
+
+static void
+target_arm (void)
+{
+    if (recording)
+	focus_t0 = vf_nalloc;
+    else if (focus_k)
+	vf_arm (focus_k, focus_mode != 0);
+}
+
+static void
+target_done (void)
+{
+    if (recording)
+	focus_n = vf_nalloc - focus_t0;
+    else if (focus_mode != 2)
+	vf_disarm ();
+}
+
+static const pixman_format_code_t fmt_tab[] = {
+    PIXMAN_a1, PIXMAN_a8, PIXMAN_a8r8g8b8, PIXMAN_a4, PIXMAN_x8r8g8b8, PIXMAN_r5g6b5, PIXMAN_a2r10g10b10
+};
+#define NFMT ((int)(sizeof fmt_tab / sizeof fmt_tab[0]))
+static const pixman_op_t op_tab[] = {
+    PIXMAN_OP_OVER, PIXMAN_OP_ADD, PIXMAN_OP_SRC, PIXMAN_OP_DISJOINT_OVER, PIXMAN_OP_SATURATE,
+    PIXMAN_OP_IN_REVERSE, PIXMAN_OP_HSL_HUE, PIXMAN_OP_OVER_REVERSE
+};
+#define NOP ((int)(sizeof op_tab / sizeof op_tab[0]))
+#define FMT(i) (fmt_tab[((i) % NFMT + NFMT) % NFMT])
+#define OP(i) (op_tab[((i) % NOP + NOP) % NOP])
+
+static void
+fill_random (pixman_image_t *img, vrng_t *rng)
+{
+    uint8_t *d = (uint8_t *)pixman_image_get_data (img);
+    int n = pixman_image_get_stride (img) * pixman_image_get_height (img), i;
+    for (i = 0; i < n; i++)
+	d[i] = (uint8_t)vrng_next (rng);
+}
+
+static pixman_image_t *
+traced_bits (int site, pixman_format_code_t f, int w, int h, uint32_t *bits, int stride)
+{
+    pixman_image_t *im;
+    call_begin_s (site, "image_create_bits", "ctor");
+    im = pixman_image_create_bits (f, w, h, bits, stride);
+    call_end (RET_PTR (im));
+    return im;
+}
+
+static void
+traced_unref (int site, pixman_image_t *im)
+{
+    call_begin_s (site, "image_unref", "void");
+    if (im)
+	pixman_image_unref (im);
+    call_end ("void");
+}
+
+/* ---- family "glyphs": pixman_composite_glyphs / pixman_composite_glyphs_no_mask ----
+ * p: entry(0 = with mask, 1 = no mask) maskfmt op srckind W H x1 y1 x2 y2 n (fmt x y w h) * n
+ * (x1,y1,x2,y2) is the rectangle of the mask variant in destination coordinates; glyph i is inserted with
+ * origin (1,2), so that its box is (x-1, y-2, x-1+w, y-2+h). */
+static void
+glyph_draw (int site, int entry, pixman_op_t op, pixman_image_t *src, pixman_image_t *dst, uint32_t *bits, int W, int H,
+	    pixman_format_code_t mfmt, const int *rect, pixman_glyph_cache_t *cache, int n, pixman_glyph_t *glyphs,
+	    const int *boxes, int indep)
+{
+    if (entry == 0)
+    {
+	draw_begin_s (site, "composite_glyphs", bits, W * H);
+	pixman_composite_glyphs (op, src, dst, mfmt, rect[0], rect[1], rect[0], rect[1], rect[0], rect[1],
+				 rect[2] - rect[0], rect[3] - rect[1], cache, n, glyphs);
+	draw_indep = indep;
+	draw_end (bits, W, H, rect, 1);
+    }
+    else
+    {
+	draw_begin_s (site, "composite_glyphs_no_mask", bits, W * H);
+	pixman_composite_glyphs_no_mask (op, src, dst, 0, 0, 0, 0, cache, n, glyphs);
+	draw_indep = indep;
+	draw_end (bits, W, H, boxes, n);
+    }
+}
+
+static void
+fam_glyphs (vrng_t *rng, const int *p, int np)
+{
+    enum { MAXG = 8 };
+    static uint32_t dstbits[MAXPIX], dst2bits[MAXPIX], srcbits[MAXPIX];
+    int entry = PARAM (0), srckind = PARAM (3), W = PARAM (4), H = PARAM (5), n = PARAM (10);
+    pixman_format_code_t mfmt = FMT (PARAM (1));
+    pixman_op_t op = OP (PARAM (2));
+    pixman_image_t *dst, *dst2, *src, *gimg[MAXG];
+    pixman_glyph_cache_t *cache;
+    pixman_glyph_t glyphs[MAXG];
+    int rect[4], full[4], boxes[4 * MAXG], i, ng = 0;
+    static const pixman_color_t ink = { 0xe000, 0x3000, 0x9000, 0xf000 };
+
+    if (n > MAXG)
+	n = MAXG;
+    if (W < 1 || H < 1 || W * H > MAXPIX)
+	return;
+    for (i = 0; i < 4; i++)
+	rect[i] = PARAM (6 + i);
+    full[0] = full[1] = 0; full[2] = W; full[3] = H;
+    for (i = 0; i < W * H; i++)
+    {
+	dstbits[i] = dst2bits[i] = 0xff203040 + 0x010101 * (i % 7);
+	srcbits[i] = (uint32_t)vrng_next (rng) | 0xc0000000;
+    }
+    dst = traced_bits (1, PIXMAN_a8r8g8b8, W, H, dstbits, W * 4);
+    dst2 = traced_bits (2, PIXMAN_a8r8g8b8, W, H, dst2bits, W * 4);
+    if (srckind == 0)
+    {
+	call_begin_s (3, "create_solid_fill", "ctor");
+	src = pixman_image_create_solid_fill (&ink);
+	call_end (RET_PTR (src));
+    }
+    else
+	src = traced_bits (3, PIXMAN_a8r8g8b8, W, H, srcbits, W * 4);
+    for (i = 0; i < n; i++)
+    {
+	gimg[i] = traced_bits (10 + i, FMT (PARAM (11 + 5 * i)), PARAM (14 + 5 * i), PARAM (15 + 5 * i), NULL, 0);
+	if (gimg[i])
+	    fill_random (gimg[i], rng);
+    }
+    call_begin_s (4, "glyph_cache_create", "ctor");
+    cache = pixman_glyph_cache_create ();
+    call_end (RET_PTR (cache));
+    if (cache)
+    {
+	call_begin_s (5, "glyph_cache_freeze", "void");
+	pixman_glyph_cache_freeze (cache);
+	call_end ("void");
+	for (i = 0; i < n; i++)
+	    if (gimg[i])
+	    {
+		const void *g;
+		call_begin_s (30 + i, "glyph_cache_insert", "ctor");
+		g = pixman_glyph_cache_insert (cache, (void *)0x100, (void *)(uintptr_t)(0x10 + i), 1, 2, gimg[i]);
+		call_end (RET_PTR (g));
+		if (g)
+		{
+		    glyphs[ng].x = PARAM (12 + 5 * i); glyphs[ng].y = PARAM (13 + 5 * i); glyphs[ng].glyph = g;
+		    boxes[4 * ng] = glyphs[ng].x - 1; boxes[4 * ng + 1] = glyphs[ng].y - 2;
+		    boxes[4 * ng + 2] = boxes[4 * ng] + PARAM (14 + 5 * i); boxes[4 * ng + 3] = boxes[4 * ng + 1] + PARAM (15 + 5 * i);
+		    ng++;
+		}
+	    }
+	if (dst && dst2 && src)
+	{
+	    /* the target call */
+	    target_arm ();
+	    glyph_draw (50, entry, op, src, dst, dstbits, W, H, mfmt, rect, cache, ng, glyphs, boxes, 0);
+	    target_done ();
+	    /* everything the call used is still usable: the same request on an untouched destination ... */
+	    glyph_draw (51, entry, op, src, dst2, dst2bits, W, H, mfmt, rect, cache, ng, glyphs, boxes, 1);
+	    /* ... and the other entry point on the (possibly half drawn) first one */
+	    if (ng)
+		glyph_draw (52, !entry, op, src, dst, dstbits, W, H,
+			    entry ? pixman_glyph_get_mask_format (cache, ng, glyphs) : mfmt, entry ? full : rect,
+			    cache, ng, glyphs, boxes, 0);
+	}
+	call_begin_s (6, "glyph_cache_thaw", "void");
+	pixman_glyph_cache_thaw (cache);
+	call_end ("void");
+	if (ng)
+	{
+	    call_begin_s (7, "glyph_cache_remove", "void");
+	    pixman_glyph_cache_remove (cache, (void *)0x100, (void *)(uintptr_t)0x10);
+	    call_end ("void");
+	}
+	call_begin_s (8, "glyph_cache_destroy", "void");
+	pixman_glyph_cache_destroy (cache);
+	call_end ("void");
+    }
+    for (i = 0; i < n; i++)
+	traced_unref (70 + i, gimg[i]);
+    traced_unref (90, src);
+    traced_unref (91, dst2);
+    traced_unref (92, dst);
+}
+
+/* ---- family "ctor": every constructor, with the parameters that decide how much it allocates ----
+ * p: which a b c d
+ *  0 create_bits (fmt a, b x c, pixman allocates, cleared)   1 create_bits_no_clear   2 create_bits on caller's pixels
+ *  3 solid fill   4/5/6 linear/radial/conical gradient with a stops   7 glyph_cache_create
+ *  8 glyph_cache_insert of a (fmt a, b x c) image   9 filter_create_separable_convolution (scales a/256, b/256; kernels c, d) */
+static void
+fam_ctor (vrng_t *rng, const int *p, int np)
+{
+    enum { W = 16, H = 4, MAXSTOPS = 400 };
+    static uint32_t dstbits[W * H], userbits[MAXPIX];
+    static pixman_gradient_stop_t stops[MAXSTOPS];
+    int which = PARAM (0), a = PARAM (1), b = PARAM (2), c = PARAM (3), d = PARAM (4);
+    int full[4] = { 0, 0, W, H }, box[4] = { 2, 1, 2, 1 };
+    pixman_point_fixed_t p1 = { 0, 0 }, p2 = { pixman_int_to_fixed (W), pixman_int_to_fixed (H) };
+    pixman_image_t *dst, *obj = NULL, *gimg = NULL;
+    pixman_glyph_cache_t *cache = NULL;
+    pixman_fixed_t *params = NULL;
+    const void *g = NULL;
+    int i, nparams = 0, r;
+
+    for (i = 0; i < W * H; i++)
+	dstbits[i] = 0xff506070;
+    for (i = 0; i < MAXPIX; i++)
+	userbits[i] = (uint32_t)vrng_next (rng);
+    if (a > MAXSTOPS && which >= 4 && which <= 6)
+	a = MAXSTOPS;
+    for (i = 0; i < MAXSTOPS; i++)
+    {
+	stops[i].x = a > 1 ? (pixman_fixed_t)((int64_t)65536 * i / (a - 1)) : 0;
+	stops[i].color.red = (uint16_t)(i * 4099); stops[i].color.green = (uint16_t)(0xffff - i * 911);
+	stops[i].color.blue = (uint16_t)(i * 257); stops[i].color.alpha = (uint16_t)(0xffff - (i % 5) * 0x1000);
+    }
+    dst = traced_bits (1, PIXMAN_a8r8g8b8, W, H, dstbits, W * 4);
+    if (which == 8)
+    {
+	call_begin_s (2, "glyph_cache_create", "ctor");
+	cache = pixman_glyph_cache_create ();
+	call_end (RET_PTR (cache));
+	gimg = traced_bits (3, FMT (a), b, c, NULL, 0);
+	if (gimg)
+	    fill_random (gimg, rng);
+	if (cache)
+	{
+	    call_begin_s (4, "glyph_cache_freeze", "void");
+	    pixman_glyph_cache_freeze (cache);
+	    call_end ("void");
+	}
+    }
+    target_arm ();
+    switch (which)
+    {
+    case 0: case 1: case 2:
+	call_begin_s (10, which == 1 ? "image_create_bits_no_clear" : "image_create_bits", "ctor");
+	if (which == 1)
+	    obj = pixman_image_create_bits_no_clear (FMT (a), b, c, NULL, 0);
+	else
+	    obj = pixman_image_create_bits (FMT (a), b, c, which == 2 ? userbits : NULL,
+					    which == 2 ? ((b * PIXMAN_FORMAT_BPP (FMT (a)) + 31) / 32) * 4 : 0);
+	call_end (RET_PTR (obj));
+	break;
+    case 3:
+	call_begin_s (11, "create_solid_fill", "ctor");
+	obj = pixman_image_create_solid_fill (&red);
+	call_end (RET_PTR (obj));
+	break;
+    case 4:
+	call_begin_s (12, "create_linear_gradient", "ctor");
+	obj = pixman_image_create_linear_gradient (&p1, &p2, stops, a);
+	call_end (RET_PTR (obj));
+	break;
+    case 5:
+	call_begin_s (13, "create_radial_gradient", "ctor");
+	obj = pixman_image_create_radial_gradient (&p1, &p2, pixman_int_to_fixed (1), pixman_int_to_fixed (9), stops, a);
+	call_end (RET_PTR (obj));
+	break;
+    case 6:
+	call_begin_s (14, "create_conical_gradient", "ctor");
+	obj = pixman_image_create_conical_gradient (&p2, pixman_int_to_fixed (30), stops, a);
+	call_end (RET_PTR (obj));
+	break;
+    case 7:
+	call_begin_s (15, "glyph_cache_create", "ctor");
+	cache = pixman_glyph_cache_create ();
+	call_end (RET_PTR (cache));
+	break;
+    case 8:
+	if (cache && gimg)
+	{
+	    call_begin_s (16, "glyph_cache_insert", "ctor");
+	    g = pixman_glyph_cache_insert (cache, (void *)0x200, (void *)0x1, 0, 0, gimg);
+	    call_end (RET_PTR (g));
+	}
+	break;
+    default:
+	call_begin_s (17, "filter_create_separable_convolution", "ctor");
+	params = pixman_filter_create_separable_convolution (&nparams, a * 256, b * 256,
+							     (pixman_kernel_t)(c % 6), (pixman_kernel_t)(d % 6),
+							     (pixman_kernel_t)((c / 6) % 6), (pixman_kernel_t)((d / 6) % 6),
+							     PARAM (5), PARAM (6));
+	call_end (RET_PTR (params));
+	break;
+    }
+    target_done ();
+    /* use what was built */
+    if (which == 9 && params)
+    {
+	obj = traced_bits (20, PIXMAN_a8r8g8b8, 8, 4, userbits, 32);
+	if (obj)
+	{
+	    call_begin_s (21, "image_set_filter", "status");
+	    r = pixman_image_set_filter (obj, PIXMAN_FILTER_SEPARABLE_CONVOLUTION, params, nparams);
+	    call_end (RET_BOOL (r));
+	}
+    }
+    if (dst && obj && (which > 2 || PIXMAN_FORMAT_BPP (FMT (a)) * b * c <= 32 * MAXPIX))
+    {
+	if (which == 1)
+	    fill_random (obj, rng);       /* no_clear: the pixels are the caller's to initialise */
+	draw_begin_s (22, "image_composite32", dstbits, W * H);
+	pixman_image_composite32 (PIXMAN_OP_OVER, obj, NULL, dst, 0, 0, 0, 0, 0, 0, W, H);
+	draw_indep = 1;
+	draw_end (dstbits, W, H, full, 1);
+    }
+    if (which == 7 && cache)
+    {
+	call_begin_s (23, "glyph_cache_freeze", "void");
+	pixman_glyph_cache_freeze (cache);
+	call_end ("void");
+    }
+    if (which == 8 && cache)
+    {
+	if (g && dst)
+	{
+	    pixman_glyph_t gl;
+	    gl.x = 2; gl.y = 1; gl.glyph = g;
+	    box[2] += b; box[3] += c;
+	    obj = NULL;
+	    call_begin_s (24, "create_solid_fill", "ctor");
+	    obj = pixman_image_create_solid_fill (&red);
+	    call_end (RET_PTR (obj));
+	    if (obj)
+	    {
+		draw_begin_s (25, "composite_glyphs_no_mask", dstbits, W * H);
+		pixman_composite_glyphs_no_mask (PIXMAN_OP_OVER, obj, dst, 0, 0, 0, 0, cache, 1, &gl);
+		draw_indep = 1;
+		draw_end (dstbits, W, H, box, 1);
+	    }
+	}
+	/* the cache takes further glyphs after a refused one */
+	if (gimg)
+	{
+	    const void *g2;
+	    call_begin_s (26, "glyph_cache_insert", "ctor");
+	    g2 = pixman_glyph_cache_insert (cache, (void *)0x200, (void *)0x2, 0, 0, gimg);
+	    call_end (RET_PTR (g2));
+	}
+    }
+    if (cache)
+    {
+	call_begin_s (27, "glyph_cache_thaw", "void");
+	pixman_glyph_cache_thaw (cache);
+	call_end ("void");
+	call_begin_s (28, "glyph_cache_destroy", "void");
+	pixman_glyph_cache_destroy (cache);
+	call_end ("void");
+    }
+    call_begin_s (29, "free_filter_params", "void"); free (params); call_end ("void");
+    traced_unref (30, gimg);
+    traced_unref (31, obj);
+    traced_unref (32, dst);
+}
+
+/* ---- family "setter": property setters that own memory, on an image with / without an earlier value ----
+ * p: which prev a b
+ *  0 set_transform (a: 0 identity 1 scale 2 rotation 3 projective)    1 set_filter CONVOLUTION a x b
+ *  2 set_filter SEPARABLE_CONVOLUTION (block built during set-up)     3 set_clip_region32, a boxes
+ *  4 set_clip_region (16 bit), a boxes: the 16 -> 32 conversion uses a heap array for more than 16
+ *  5 set_filter BILINEAR (drops the earlier parameters)               6 set_clip_region32 (NULL) */
+static void
+fam_setter (vrng_t *rng, const int *p, int np)
+{
+    enum { W = 32, H = 4, SW = 8, SH = 4, MAXB = 64 };
+    static uint32_t dstbits[W * H], srcbits[SW * SH];
+    static pixman_fixed_t conv[2 + 81];
+    static int clipboxes[4 * MAXB];
+    pixman_box32_t b32[MAXB];
+    pixman_box16_t b16[MAXB];
+    int which = PARAM (0), prev = PARAM (1), a = PARAM (2), b = PARAM (3);
+    int full[4] = { 0, 0, W, H }, *al = full, nal = 1;
+    pixman_image_t *dst, *src;
+    pixman_fixed_t *sep = NULL;
+    pixman_transform_t t;
+    pixman_region32_t r32;
+    pixman_region16_t r16;
+    int i, r = 0, pass, nsep = 0;
+
+    for (i = 0; i < W * H; i++)
+	dstbits[i] = 0xff283848;
+    for (i = 0; i < SW * SH; i++)
+	srcbits[i] = (uint32_t)vrng_next (rng) | 0xa0000000;
+    if (a > MAXB && (which == 3 || which == 4))
+	a = MAXB;
+    for (i = 0; i < MAXB; i++)
+    {
+	/* box i: 1 x 1 at column 2 * (i mod 16), row i div 16: y-x banded */
+	b32[i].x1 = 2 * (i % 16); b32[i].y1 = i / 16; b32[i].x2 = b32[i].x1 + 1; b32[i].y2 = b32[i].y1 + 1;
+	b16[i].x1 = b32[i].x1; b16[i].y1 = b32[i].y1; b16[i].x2 = b32[i].x2; b16[i].y2 = b32[i].y2;
+	clipboxes[4 * i] = b32[i].x1; clipboxes[4 * i + 1] = b32[i].y1; clipboxes[4 * i + 2] = b32[i].x2; clipboxes[4 * i + 3] = b32[i].y2;
+    }
+    dst = traced_bits (1, PIXMAN_a8r8g8b8, W, H, dstbits, W * 4);
+    src = traced_bits (2, PIXMAN_a8r8g8b8, SW, SH, srcbits, SW * 4);
+    if (which == 2)
+    {
+	call_begin_s (3, "filter_create_separable_convolution", "ctor");
+	sep = pixman_filter_create_separable_convolution (&nsep, pixman_double_to_fixed (1.5), pixman_double_to_fixed (0.75),
+							  PIXMAN_KERNEL_LINEAR, PIXMAN_KERNEL_BOX, PIXMAN_KERNEL_CUBIC,
+							  PIXMAN_KERNEL_IMPULSE, 2, 1);
+	call_end (RET_PTR (sep));
+    }
+    /* pass 0: the earlier value (only if prev), pass 1: the target, pass 2: once more without faults */
+    for (pass = prev ? 0 : 1; pass < 3 && src && dst; pass++)
+    {
+	int site = 10 + 10 * pass;
+	int aa = pass == 0 ? (which == 0 ? 1 : which == 1 ? 3 : 3) : pass == 2 && which == 0 ? 2 : a;
+	int bb = pass == 0 ? 3 : b;
+	if (pass == 1)
+	    target_arm ();
+	switch (which)
+	{
+	case 0:
+	    if (aa == 0)
+		pixman_transform_init_identity (&t);
+	    else if (aa == 1)
+		pixman_transform_init_scale (&t, pixman_double_to_fixed (0.25), pixman_double_to_fixed (1.0));
+	    else
+		pixman_transform_init_rotate (&t, pixman_double_to_fixed (0.8), pixman_double_to_fixed (0.6));
+	    if (aa == 3)
+		t.matrix[2][0] = 100;
+	    call_begin_s (site, "image_set_transform", "status");
+	    r = pixman_image_set_transform (src, &t);
+	    call_end (RET_BOOL (r));
+	    break;
+	case 1: case 5:
+	    if (aa < 1) aa = 1;
+	    if (bb < 1) bb = 1;
+	    if (aa > 9) aa = 9;
+	    if (bb > 9) bb = 9;
+	    conv[0] = pixman_int_to_fixed (aa);
+	    conv[1] = pixman_int_to_fixed (bb);
+	    for (i = 0; i < aa * bb; i++)
+		conv[2 + i] = 65536 / (aa * bb) + (i == 0 ? 65536 - (aa * bb) * (65536 / (aa * bb)) : 0);
+	    call_begin_s (site, "image_set_filter", "status");
+	    if (which == 5 && pass == 1)
+		r = pixman_image_set_filter (src, PIXMAN_FILTER_BILINEAR, NULL, 0);
+	    else
+		r = pixman_image_set_filter (src, PIXMAN_FILTER_CONVOLUTION, conv, 2 + aa * bb);
+	    call_end (RET_BOOL (r));
+	    break;
+	case 2:
+	    call_begin_s (site, "image_set_filter", "status");
+	    if (pass == 0 || !sep)
+	    {
+		conv[0] = conv[1] = pixman_int_to_fixed (1); conv[2] = 65536;
+		r = pixman_image_set_filter (src, PIXMAN_FILTER_CONVOLUTION, conv, 3);
+	    }
+	    else
+		r = pixman_image_set_filter (src, PIXMAN_FILTER_SEPARABLE_CONVOLUTION, sep, nsep);
+	    call_end (RET_BOOL (r));
+	    break;
+	case 3: case 6:
+	    pixman_region32_init_rects (&r32, b32, aa);
+	    call_begin_s (site, "image_set_clip_region32", "status");
+	    r = pixman_image_set_clip_region32 (dst, which == 6 && pass == 1 ? NULL : &r32);
+	    call_end (RET_BOOL (r));
+	    pixman_region32_fini (&r32);
+	    if (which == 6 && pass == 1) { al = full; nal = 1; }
+	    else if (r) { al = clipboxes; nal = aa; }
+	    else { al = full; nal = 1; }       /* a refused setter promises nothing about the clip it leaves */
+	    break;
+	default:
+	    pixman_region_init_rects (&r16, b16, aa);
+	    call_begin_s (site, "image_set_clip_region", "status");
+	    r = pixman_image_set_clip_region (dst, &r16);
+	    call_end (RET_BOOL (r));
+	    pixman_region_fini (&r16);
+	    if (r) { al = clipboxes; nal = aa; }
+	    else { al = full; nal = 1; }
+	    break;
+	}
+	if (pass == 1)
+	    target_done ();
+	if (pass >= 1)
+	{
+	    draw_begin_s (site + 1, "image_composite32", dstbits, W * H);
+	    pixman_image_composite32 (PIXMAN_OP_OVER, src, NULL, dst, 0, 0, 0, 0, 0, 0, W, H);
+	    draw_end (dstbits, W, H, al, nal);
+	}
+    }
+    call_begin_s (50, "free_filter_params", "void"); free (sep); call_end ("void");
+    traced_unref (51, src);
+    traced_unref (52, dst);
+}
+
+/* ---- family "draw": the other drawing entry points ----
+ * p: which op a b c d e
+ *  0 composite_trapezoids (mask fmt a, b traps)   1 composite_triangles (mask fmt a, b triangles)
+ *  2 add_trapezoids b   3 add_triangles b   4 add_traps b                      (a8 destination)
+ *  5 fill_rectangles (colour alpha a ? opaque : translucent, b rects, c clip boxes on the destination)
+ *  6 fill_boxes (same)
+ *  7 composite32, a = width (one or two rows: wide enough for heap scanline buffers), b = source kind
+ *    (0 solid 1 bits 2 bits scaled nearest 3 bits scaled bilinear 4 linear gradient 5 bits 3x3 convolution
+ *     6 r5g6b5 bits 7 a2r10g10b10 bits), c = mask kind (0 none 1 a8 2 a8r8g8b8 component alpha),
+ *    d = clip boxes on the destination, e = destination kind (0 a8r8g8b8, 1 x2r10g10b10, 2 a8r8g8b8 with an a8
+ *    alpha map: the alpha channel is read from and written to the map, through a per-row temporary; rows are logged
+ *    as the image's words followed by the map's bytes, four to a word) */
+static void
+fam_draw (vrng_t *rng, const int *p, int np)
+{
+    enum { MAXT = 12, MAXB = 64 };
+    static uint32_t dstbits[MAXPIX], dst2bits[MAXPIX], srcbits[2 * MAXPIX], maskbits[MAXPIX];
+    static uint32_t ambits[2][MAXPIX / 4], comb[2 * MAXPIX];
+    pixman_image_t *amap[2] = { NULL, NULL };
+    int which = PARAM (0), a = PARAM (2), b = PARAM (3), c = PARAM (4), d = PARAM (5), e = PARAM (6);
+    pixman_op_t op = OP (PARAM (1));
+    int W = 32, H = 6, full[4], i, r, pass, nclip = 0;
+    static int clipboxes[4 * MAXB];
+    pixman_box32_t b32[MAXB], fb[MAXB];
+    pixman_rectangle16_t rects[MAXB];
+    pixman_trapezoid_t traps[MAXT];
+    pixman_triangle_t tris[MAXT];
+    pixman_trap_t xtraps[MAXT];
+    pixman_image_t *dst, *dst2, *src = NULL, *mask = NULL;
+    pixman_region32_t r32;
+    pixman_color_t col = red;
+    pixman_format_code_t dfmt = PIXMAN_a8r8g8b8;
+    int alpha_only = which >= 2 && which <= 4;
+
+    if (which == 7)
+    {
+	W = a; H = W > 512 ? 1 : 2;
+	if (W < 1 || W > MAXPIX)
+	    return;
+	nclip = d;
+	if (e == 1)
+	    dfmt = PIXMAN_x2r10g10b10;
+	if (e == 2)
+	{
+	    W &= ~3;
+	    nclip = 0;
+	    if (W < 4 || (W + W / 4) * H > MAXPIX)
+		return;
+	}
+    }
+    if (which == 5 || which == 6)
+	nclip = c;
+    if (nclip > MAXB)
+	nclip = MAXB;
+    if (b > MAXT && which <= 4)
+	b = MAXT;
+    if (b > MAXB)
+	b = MAXB;
+    full[0] = full[1] = 0; full[2] = alpha_only ? W / 4 : W; full[3] = H;
+    for (i = 0; i < W * H; i++)
+    {
+	dstbits[i] = dst2bits[i] = alpha_only ? 0x20202020 : 0xff304050 + 0x010101 * (i % 5);
+	maskbits[i] = (uint32_t)vrng_next (rng);
+    }
+    for (i = 0; i < 2 * MAXPIX; i++)
+	srcbits[i] = (uint32_t)vrng_next (rng) | 0x90000000;
+    for (i = 0; i < MAXT; i++)
+    {
+	double ox = 1 + 5 * (i % 6), oy = 0;
+	traps[i].top = FX (0.5 + oy);
+	traps[i].bottom = FX (H - 0.75);
+	traps[i].left.p1.x = FX (ox + 0.3); traps[i].left.p1.y = FX (0);
+	traps[i].left.p2.x = FX (ox + 1.2); traps[i].left.p2.y = FX (H);
+	traps[i].right.p1.x = FX (ox + 4.1); traps[i].right.p1.y = FX (0);
+	traps[i].right.p2.x = FX (ox + 3.4); traps[i].right.p2.y = FX (H);
+	tris[i].p1.x = FX (ox + 0.5); tris[i].p1.y = FX (0.25);
+	tris[i].p2.x = FX (ox + 4.2); tris[i].p2.y = FX (2);
+	tris[i].p3.x = FX (ox + 1.5); tris[i].p3.y = FX (H - 0.5);
+	xtraps[i].top.l = FX (ox + 0.5); xtraps[i].top.r = FX (ox + 3.5); xtraps[i].top.y = FX (0.5);
+	xtraps[i].bot.l = FX (ox + 1.5); xtraps[i].bot.r = FX (ox + 4.0); xtraps[i].bot.y = FX (H - 1);
+    }
+    for (i = 0; i < MAXB; i++)
+    {
+	/* clip box i: 1 x 1 at column 2 * (i mod 16) + (row odd), row i div 16: a checkerboard, y-x banded */
+	int row = i / 16;
+	b32[i].x1 = (2 * (i % 16) + (row & 1)) * (W / 32 ? W / 32 : 1); b32[i].y1 = row;
+	b32[i].x2 = b32[i].x1 + (W / 32 ? W / 32 : 1); b32[i].y2 = row + 1;
+	clipboxes[4 * i] = b32[i].x1; clipboxes[4 * i + 1] = b32[i].y1; clipboxes[4 * i + 2] = b32[i].x2; clipboxes[4 * i + 3] = b32[i].y2;
+	/* fill box i: 3 x 1, four to a row: disjoint */
+	fb[i].x1 = 8 * (i % 4); fb[i].y1 = (i / 4) % H; fb[i].x2 = fb[i].x1 + 3 + (i / (4 * H)) * 2; fb[i].y2 = fb[i].y1 + 1;
+	rects[i].x = fb[i].x1; rects[i].y = fb[i].y1; rects[i].width = fb[i].x2 - fb[i].x1; rects[i].height = 1;
+    }
+    if (alpha_only)
+    {
+	dst = traced_bits (1, PIXMAN_a8, W, H, dstbits, W);
+	dst2 = traced_bits (2, PIXMAN_a8, W, H, dst2bits, W);
+    }
+    else
+    {
+	dst = traced_bits (1, dfmt, W, H, dstbits, W * 4);
+	dst2 = traced_bits (2, dfmt, W, H, dst2bits, W * 4);
+    }
+    if (which == 7 && e == 2 && dst && dst2)
+    {
+	pixman_image_t *dd[2];
+	dd[0] = dst; dd[1] = dst2;
+	for (i = 0; i < W * H / 4; i++)
+	    ambits[0][i] = ambits[1][i] = 0x40506070 + 0x01010101 * (i % 3);
+	for (i = 0; i < 2; i++)
+	{
+	    amap[i] = traced_bits (10 + i, PIXMAN_a8, W, H, ambits[i], W);
+	    if (amap[i])
+	    {
+		call_begin_s (12 + i, "image_set_alpha_map", "void");
+		pixman_image_set_alpha_map (dd[i], amap[i], 0, 0);
+		call_end ("void");
+	    }
+	}
+    }
+    if (which == 5 || which == 6)
+    {
+	col.alpha = a ? 0xffff : 0x8000;
+	if (!a) { col.red = 0x4000; col.green = 0x1000; col.blue = 0x0800; }
+    }
+    else if (which == 7 && b != 0)
+    {
+	if (b == 4)
+	{
+	    pixman_gradient_stop_t stops[3] = { { 0, { 0xffff, 0, 0, 0xffff } }, { 0x8000, { 0, 0x8000, 0, 0x8000 } },
+						{ 0x10000, { 0, 0, 0xffff, 0xffff } } };
+	    pixman_point_fixed_t p1 = { 0, 0 }, p2 = { pixman_int_to_fixed (W), pixman_int_to_fixed (H) };
+	    call_begin_s (3, "create_linear_gradient", "ctor");
+	    src = pixman_image_create_linear_gradient (&p1, &p2, stops, 3);
+	    call_end (RET_PTR (src));
+	}
+	else if (b == 6)
+	    src = traced_bits (3, PIXMAN_r5g6b5, W, H + 1, srcbits, ((W * 2 + 3) / 4) * 4);
+	else if (b == 7)
+	    src = traced_bits (3, PIXMAN_a2r10g10b10, W, H + 1, srcbits, W * 4);
+	else
+	    src = traced_bits (3, PIXMAN_a8r8g8b8, W, H + 1, srcbits, W * 4);
+	if (src && (b == 2 || b == 3))
+	{
+	    pixman_transform_t t;
+	    pixman_transform_init_scale (&t, pixman_double_to_fixed (0.5), pixman_double_to_fixed (0.5));
+	    /* shifted by one pixel: every sample, bilinear neighbours included, lies inside the source */
+	    t.matrix[0][2] = t.matrix[1][2] = pixman_fixed_1;
+	    call_begin_s (4, "image_set_transform", "status");
+	    r = pixman_image_set_transform (src, &t);
+	    call_end (RET_BOOL (r));
+	    call_begin_s (5, "image_set_filter", "status");
+	    r = pixman_image_set_filter (src, b == 3 ? PIXMAN_FILTER_BILINEAR : PIXMAN_FILTER_NEAREST, NULL, 0);
+	    call_end (RET_BOOL (r));
+	}
+	if (src && b == 5)
+	{
+	    pixman_fixed_t conv[11];
+	    conv[0] = conv[1] = pixman_int_to_fixed (3);
+	    for (i = 0; i < 9; i++)
+		conv[2 + i] = 65536 / 9 + (i == 4 ? 65536 - 9 * (65536 / 9) : 0);
+	    call_begin_s (5, "image_set_filter", "status");
+	    r = pixman_image_set_filter (src, PIXMAN_FILTER_CONVOLUTION, conv, 11);
+	    call_end (RET_BOOL (r));
+	}
+    }
+    if (!src && !alpha_only && which != 5 && which != 6)
+    {
+	call_begin_s (3, "create_solid_fill", "ctor");
+	src = pixman_image_create_solid_fill (&col);
+	call_end (RET_PTR (src));
+    }
+    if (which == 7 && c)
+    {
+	if (c == 1)
+	    mask = traced_bits (6, PIXMAN_a8, W, H, maskbits, ((W + 3) / 4) * 4);
+	else
+	{
+	    mask = traced_bits (6, PIXMAN_a8r8g8b8, W, H, maskbits, W * 4);
+	    if (mask)
+	    {
+		call_begin_s (7, "image_set_component_alpha", "void");
+		pixman_image_set_component_alpha (mask, 1);
+		call_end ("void");
+	    }
+	}
+    }
+    if (nclip && dst && dst2)
+    {
+	pixman_image_t *dd[2];
+	dd[0] = dst; dd[1] = dst2;
+	for (i = 0; i < 2; i++)
+	{
+	    pixman_region32_init_rects (&r32, b32, nclip);
+	    call_begin_s (8 + i, "image_set_clip_region32", "status");
+	    r = pixman_image_set_clip_region32 (dd[i], &r32);
+	    call_end (RET_BOOL (r));
+	    pixman_region32_fini (&r32);
+	}
+    }
+    /* pass 0: the target on dst; pass 1: the same request, no faults, on the untouched dst2; pass 2: again on dst */
+    for (pass = 0; pass < 3 && dst && dst2 && (src || alpha_only || which == 5 || which == 6); pass++)
+    {
+	pixman_image_t *dd = pass == 1 ? dst2 : dst;
+	uint32_t *bits = pass == 1 ? dst2bits : dstbits;
+	const int *al = nclip ? clipboxes : full;
+	int nal = nclip ? nclip : 1, lw = full[2];
+	int site = 20 + pass, with_map = which == 7 && e == 2, y;
+	if (with_map)
+	{
+	    lw = W + W / 4;
+	    for (y = 0; y < H; y++)
+	    {
+		memcpy (comb + y * lw, bits + y * W, 4 * W);
+		memcpy (comb + y * lw + W, ambits[pass == 1] + y * W / 4, W);
+	    }
+	}
+	if (pass == 0)
+	    target_arm ();
+	switch (which)
+	{
+	case 0:
+	    draw_begin_s (site, "composite_trapezoids", bits, lw * H);
+	    pixman_composite_trapezoids (op, src, dd, FMT (a), 0, 0, 0, 0, b, traps);
+	    break;
+	case 1:
+	    draw_begin_s (site, "composite_triangles", bits, lw * H);
+	    pixman_composite_triangles (op, src, dd, FMT (a), 0, 0, 0, 0, b, tris);
+	    break;
+	case 2:
+	    draw_begin_s (site, "add_trapezoids", bits, lw * H);
+	    pixman_add_trapezoids (dd, 0, 0, b, traps);
+	    break;
+	case 3:
+	    draw_begin_s (site, "add_triangles", bits, lw * H);
+	    pixman_add_triangles (dd, 0, 0, b, tris);
+	    break;
+	case 4:
+	    draw_begin_s (site, "add_traps", bits, lw * H);
+	    pixman_add_traps (dd, 0, 0, b, xtraps);
+	    break;
+	case 5:
+	    draw_begin_s (site, "image_fill_rectangles", bits, lw * H);
+	    r = pixman_image_fill_rectangles (op, dd, &col, b, rects);
+	    break;
+	case 6:
+	    draw_begin_s (site, "image_fill_boxes", bits, lw * H);
+	    r = pixman_image_fill_boxes (op, dd, &col, b, fb);
+	    break;
+	default:
+	    draw_begin_s (site, "image_composite32", with_map ? comb : bits, lw * H);
+	    pixman_image_composite32 (op, src, mask, dd, 0, 0, 0, 0, 0, 0, W, H);
+	    break;
+	}
+	draw_indep = (pass == 1);
+	if (with_map)
+	{
+	    int both[4];
+	    both[0] = both[1] = 0; both[2] = lw; both[3] = H;
+	    for (y = 0; y < H; y++)
+	    {
+		memcpy (comb + y * lw, bits + y * W, 4 * W);
+		memcpy (comb + y * lw + W, ambits[pass == 1] + y * W / 4, W);
+	    }
+	    draw_end (comb, lw, H, both, 1);
+	}
+	else
+	    draw_end (bits, lw, H, al, nal);
+	if (pass == 0)
+	    target_done ();
+    }
+    (void)r;
+    traced_unref (38, amap[0]);
+    traced_unref (39, amap[1]);
+    traced_unref (40, mask);
+    traced_unref (41, src);
+    traced_unref (42, dst2);
+    traced_unref (43, dst);
+}
+
+static const struct { const char *name; void (*fn) (vrng_t *, const int *, int); } families[] = {
+    { "glyphs", fam_glyphs }, { "ctor", fam_ctor }, { "setter", fam_setter }, { "draw", fam_draw },
+};
+
+static void
+run_case (const char *name, int fam, const int *p, int np, uint64_t seed, int k, int mode)
+{
+    vrng_t rng;
+    char full[128];
+    vrng_seed (&rng, seed);
+    snprintf (full, sizeof full, "%s-k%d-m%d", name, k, mode);
+    vt_reset (full);
+    step = 0;
+    recording = (k == 0);
+    focus_k = k;
+    focus_mode = mode;
+    vf_disarm ();
+    alarm (20);
+    families[fam].fn (&rng, p, np);
+    alarm (0);
+    vf_disarm ();
+    vt_begin ("Final");
+    vt_end ();
+}
+
+static int
+run_cases (const char *path, uint64_t seed, int maxk, int modes)
+{
+    FILE *f = fopen (path, "r");
+    static char line[8192];
+    if (!f)
+	return 3;
+    {
+	/* the implementation chain is built by the first drawing call of the process: not inside a target */
+	static uint32_t px[2];
+	pixman_image_t *a = pixman_image_create_bits (PIXMAN_a8r8g8b8, 1, 1, &px[0], 4);
+	pixman_image_t *b = pixman_image_create_bits (PIXMAN_a8r8g8b8, 1, 1, &px[1], 4);
+	pixman_image_composite32 (PIXMAN_OP_OVER, a, NULL, b, 0, 0, 0, 0, 0, 0, 1, 1);
+	pixman_image_unref (a);
+	pixman_image_unref (b);
+    }
+    while (fgets (line, sizeof line, f))
+    {
+	char name[64], famname[32];
+	int p[256], np = 0, fam = -1, off = 0, used, v, k, m;
+	unsigned i;
+	if (sscanf (line, "C %63s %31s%n", name, famname, &off) < 2)
+	    continue;
+	while (np < 256 && sscanf (line + off, "%d%n", &v, &used) == 1)
+	{
+	    p[np++] = v;
+	    off += used;
+	}
+	for (i = 0; i < sizeof families / sizeof families[0]; i++)
+	    if (!strcmp (families[i].name, famname))
+		fam = (int)i;
+	if (fam < 0)
+	    return 3;
+	focus_n = 0;
+	run_case (name, fam, p, np, seed, 0, 0);
+	printf ("%s %d\n", name, focus_n);
+	for (k = 1; k <= focus_n && k <= maxk; k++)
+	    for (m = 0; m < 3; m++)
+		if (modes & (1 << m))
+		    run_case (name, fam, p, np, seed, k, m);
+    }
+    fclose (f);
+    return 0;
+}
+
 typedef void (*scenario_t) (vrng_t *);
 static const struct { const char *name; scenario_t fn; } scenarios[] = {
     { "images", scenario_images }, { "gradients", scenario_gradients }, { "traps", scenario_traps },
@@ -499,11 +1356,20 @@ main (int argc, char **argv)
     for (sc = -1, i = 0; i < sizeof scenarios / sizeof scenarios[0]; i++)
 	if (!strcmp (scenarios[i].name, argv[2]))
 	    sc = (int)i;
-    if (sc < 0)
+    if (sc < 0 && argv[2][0] != '@')
 	return 3;
     seed = strtoull (argv[3], NULL, 10);
     if (argc > 4)
 	maxk = atoi (argv[4]);
+    if (argv[2][0] == '@')
+    {
+	int rc;
+	vt_open (argv[1]);
+	vf_log (1);
+	rc = run_cases (argv[2] + 1, seed, maxk, argc > 5 ? atoi (argv[5]) : 3);
+	vt_close ();
+	return rc;
+    }
     vt_open (argv[1]);
     vf_log (1);
     run_once (sc, seed, 0, 0);
